@@ -64,7 +64,7 @@ def replay_cex(path, msg):
     if not m:
         return None, "cannot parse counterexample"
     fn, args = m.group(1), m.group(2)
-    code = f"import importlib.util\nspec=importlib.util.spec_from_file_location('h', {path!r})\nmod=importlib.util.module_from_spec(spec)\nspec.loader.exec_module(mod)\ntry:\n    print('RESULT', mod.{fn}({args}))\nexcept Exception as e:\n    print('RESULT EXC', type(e).__name__, e)\n"
+    code = f"import importlib.util\nspec=importlib.util.spec_from_file_location('h', {path!r})\nmod=importlib.util.module_from_spec(spec)\nimport sys\nsys.modules['h']=mod\nspec.loader.exec_module(mod)\ntry:\n    print('RESULT', mod.{fn}({args}))\nexcept Exception as e:\n    print('RESULT EXC', type(e).__name__, e)\n"
     env = dict(os.environ)
     env["PYTHONPATH"] = f"{ROOT}:{common.REPO}/src"
     p = subprocess.run(["/venv/bin/python", "-c", code], capture_output=True, text=True, env=env, timeout=120)
@@ -181,6 +181,42 @@ def _find_work(names):
                     out["problems"].append({"program": name, "pattern": pat, "problem": f"#{n} selects a different match than element {n} of find(many=True)"})
             if len(out["samples"]) < 2 and allm:
                 out["samples"].append({"program": name, "pattern": pat, "matches": len(allm)})
+        # completeness for name patterns: every use of a control variable that navigation through the public
+        # cursor API reaches (loop bounds, conditions, indices, right-hand sides, call arguments) is found
+        reads = {}
+        for s_ in SE.stmt_cursors(p):
+            roots = []
+            if isinstance(s_, (PC.AssignCursor, PC.ReduceCursor)):
+                roots += [s_.rhs()] + list(s_.idx())
+            elif isinstance(s_, PC.AssignConfigCursor):
+                roots.append(s_.rhs())
+            elif isinstance(s_, PC.ForCursor):
+                roots += [s_.lo(), s_.hi()]
+            elif isinstance(s_, PC.IfCursor):
+                roots.append(s_.cond())
+            elif isinstance(s_, PC.CallCursor):
+                roots += list(s_.args())
+            for r_ in roots:
+                try:
+                    for e_ in SE._sub_exprs(r_):
+                        if isinstance(e_, PC.ReadCursor) and len(list(e_.idx())) == 0:
+                            reads.setdefault(e_.name(), []).append(tuple(map(tuple, e_._impl._path)))
+                except Exception:
+                    pass
+        ctrl = set(SE.ctrl_arg_names(p)[0] + SE.ctrl_arg_names(p)[1]) | {s_.name() for s_ in SE.stmt_cursors(p) if isinstance(s_, PC.ForCursor)}
+        for v in sorted(ctrl):
+            want = set(reads.get(v, []))
+            if not want:
+                continue
+            out["checks"] += 1
+            try:
+                got = {tuple(map(tuple, c._impl._path)) for c in p.find(v, many=True) if hasattr(c._impl, "_path")}
+            except Exception as ex:
+                out["problems"].append({"program": name, "pattern": v, "problem": f"find raises {type(ex).__name__} although {len(want)} uses of the variable exist"})
+                continue
+            missing = want - got
+            if missing:
+                out["problems"].append({"program": name, "pattern": v, "problem": f"find misses {len(missing)} of {len(want)} uses of the variable, e.g. at {sorted(missing)[0]}"})
     return out
 
 
